@@ -99,12 +99,16 @@ theorem C07_strict_needed (orig : J) (kvs : List (String × J)) (u : String) (v 
     have := hget "@context" (Ne.symm hc)
     simp only [member] at this
     rw [this]
+  have hcl : ctxList (.obj (kvs ++ [(u, v)])) = ctxList (.obj kvs) := by
+    unfold ctxList; rw [hget "@context" (Ne.symm hc)]
+  have hcs : ∀ p, ctxSame p (.obj kvs) (.obj (kvs ++ [(u, v)])) = true := by
+    intro p; unfold ctxSame; rw [hcl, hget "@context" (Ne.symm hc)]; split <;> simp
   unfold expected
-  rw [hget "proof" (Ne.symm hp), hget "@context" (Ne.symm hc), hd]
+  rw [hget "proof" (Ne.symm hp), hd]
   cases hpm : member (.obj kvs) "proof" with
   | none => simp [hpm] at hproof
   | some p =>
-    simp only [Option.map_some, beq_self_eq_true, Bool.true_and]
+    simp only [Option.map_some, beq_self_eq_true, Bool.true_and, hcs]
     rw [C07_undefined_invisible_top _ kvs u v hu hid, sameSet_refl]
     have hund : hasUndefined (definedFor (.obj kvs)) 16 (.obj (kvs ++ [(u, v)])) = true := by
       simp only [hasUndefined, List.any_append, List.any_cons, List.any_nil, Bool.or_false, Bool.or_eq_true]
@@ -127,6 +131,25 @@ theorem C07_proof_options_covered (orig mutated p : J) (hm : member mutated "pro
     expected orig mutated = ("rej", "rej") := by
   unfold expected
   simp [hm, h]
+
+/-- with the `proofValue` representation the context list itself is covered: any change of it is refused -/
+theorem C07_context_list_covered (orig mutated p : J) (hm : member mutated "proof" = some p)
+    (hrepr : detachedJws p = false)
+    (h : ((member orig "@context").map J.render == (member mutated "@context").map J.render) = false) :
+    expected orig mutated = ("rej", "rej") := by
+  unfold expected
+  simp [hm, ctxSame, hrepr, h]
+
+/-- with the detached-JWS representation a context that defines only proof vocabulary can go without changing a signed
+    statement: default verification still accepts, strict validation does not (the refinement the thorough tier forced
+    on the model: the signature covers statements, not the context list as text) -/
+theorem C07_detached_proof_context (orig mutated p : J) (hm : member mutated "proof" = some p)
+    (hproof : ((member orig "proof").map J.render == some (J.render p)) = true)
+    (hctx : ctxSame p orig mutated = true) (hlost : lostProofCtx orig mutated = true)
+    (hcl : sameSet (docClaims (definedFor mutated) orig) (docClaims (definedFor mutated) mutated) = true) :
+    expected orig mutated = ("acc", "rej") := by
+  unfold expected
+  simp [hm, hproof, hctx, hlost, hcl]
 
 /-- without a proof nothing is "verified" -/
 theorem C07_no_proof (orig mutated : J) (hm : member mutated "proof" = none) :
